@@ -60,7 +60,7 @@ func vfGenTW(t *rapid.T) vfTWCase {
 	}
 	if rapid.IntRange(0, 2).Draw(t, "chunked") == 0 {
 		c.Chunks = rapid.SliceOfN(rapid.SampledFrom([]int{1, 7, 64, 1000, 4096, 40000, 100000}), 1, 4).Draw(t, "chunks")
-		if c.FrameSize*c.Frames > 3000000 {
+		if c.FrameSize*c.Frames > 400000 {
 			for i, n := range c.Chunks {
 				if n < 64 {
 					c.Chunks[i] = 64 // keep huge streams from being sent byte by byte
